@@ -114,15 +114,15 @@ func (s *Scenario) Dur(t int64) time.Duration    { return time.Duration(t*s.Tick
 func (s *Scenario) IsInstant() bool              { return s.Step == 0 }
 func (s *Scenario) CfgInt(k string, def int) int { return cfgInt(s.Cfg, k, def) }
 
-// Procs is the GOMAXPROCS setting of a scenario: the one it asks for, else 2, 4 or 8 (1, 2 or 4
-// shards per selector) as a pure function of its id.
+// Procs is the GOMAXPROCS setting of a scenario: the one it asks for, else 1, 2, 3, 4 or 8 (1, 1, 1, 2
+// or 4 shards per selector) as a pure function of its id.
 func (s *Scenario) Procs() int {
 	if v := cfgInt(s.Cfg, "procs", 0); v > 0 {
 		return v
 	}
 	h := fnv.New32a()
 	h.Write([]byte(s.ID))
-	return []int{4, 2, 8, 4}[(h.Sum32()>>3)%4]
+	return []int{4, 2, 8, 1, 4, 3}[(h.Sum32()>>3)%6]
 }
 func (s *Scenario) CfgStr(k string, d string) string { return cfgStr(s.Cfg, k, d) }
 
